@@ -126,8 +126,14 @@ def lake(args: Sequence[str], timeout: int = 3600) -> Tuple[int, str]:
     return p.returncode, p.stdout + p.stderr
 
 
+TABLE_FAILURES: Dict[str, str] = {}  # stem of CBV/Gen/<stem>.lean -> traceback of the translator, from the last regeneration
+
+
 def regenerate_tables() -> Tuple[bool, str]:
-    """Runs the translator; rewrites CBV/Gen/Tables.lean only when its content changes."""
+    """Runs the translator; rewrites a file of CBV/Gen only when its content changes (one file per table module, so
+    that a change of one module's tables rebuilds, and a failing translator module breaks, only what uses them).
+    Returns (False, traceback) only when the common hexahedron tables cannot be produced; failures of single table
+    modules are left in TABLE_FAILURES (their files become stubs without definitions)."""
     from . import gen_tables
 
     # the probes of the table modules must not leak interpreter state into the implementation runs
@@ -141,19 +147,43 @@ def regenerate_tables() -> Tuple[bool, str]:
         np = None
     saved_filters = warnings.filters[:]
     try:
-        text = gen_tables.generate()
-    except Exception:  # the source no longer exposes what the translator reads
+        files, failures = gen_tables.generate_files()
+    except Exception:  # the translator itself is broken
         return False, traceback.format_exc()
     finally:
         if np is not None:
             np.seterr(**saved_err)
         warnings.filters[:] = saved_filters
-    target = LEAN / "CBV" / "Gen" / "Tables.lean"
+    TABLE_FAILURES.clear()
+    TABLE_FAILURES.update(failures)
+    gen = LEAN / "CBV" / "Gen"
     with Lock(LEAN / ".lake" / "cbv.lock"):
-        if not target.exists() or target.read_text() != text:
-            target.parent.mkdir(parents=True, exist_ok=True)
-            target.write_text(text)
-    return True, hashlib.sha256(text.encode()).hexdigest()[:16]
+        gen.mkdir(parents=True, exist_ok=True)
+        for stem, text in files.items():
+            target = gen / f"{stem}.lean"
+            if not target.exists() or target.read_text() != text:
+                target.write_text(text)
+        for old in gen.glob("*.lean"):
+            if old.stem not in files:
+                old.unlink()
+    if "Tables" in failures:
+        return False, failures["Tables"]
+    return True, hashlib.sha256("".join(files[k] for k in sorted(files)).encode()).hexdigest()[:16]
+
+
+def import_closure(modules: Sequence[str]) -> List[str]:
+    """All modules of this library that the given ones import, directly or not (read from the import lines)."""
+    seen: List[str] = []
+    todo = list(modules)
+    while todo:
+        m = todo.pop()
+        if m in seen or not m.startswith("CBV"):
+            continue
+        seen.append(m)
+        f = LEAN / (m.replace(".", "/") + ".lean")
+        if f.exists():
+            todo += re.findall(r"^import\s+(CBV[\w.]*)", f.read_text(), re.M)
+    return seen
 
 
 def build(modules: Sequence[str]) -> Tuple[bool, str]:
@@ -230,13 +260,69 @@ def audit(module: str) -> Dict[str, Any]:
     return res
 
 
+def model_modules_for(lines: Sequence[str]) -> List[str]:
+    """The model modules that answer the given requests (`cNN.entry ...` is answered by CBV.Model.CNN)."""
+    pre = sorted({l.split(".", 1)[0].strip() for l in lines if "." in l.split(" ", 1)[0]})
+    return [f"CBV.Model.{p.upper()}" for p in pre if re.fullmatch(r"c\d\d", p)]
+
+
+def write_driver(mods: Sequence[str]) -> Path:
+    """A line-protocol interpreter that imports only the given model modules (so that a model that does not build
+    for the current source takes down only the checks that use it).  Same protocol as Driver.lean."""
+    adir = LEAN / ".audit"
+    adir.mkdir(exist_ok=True)
+    name = "Driver_" + "_".join(m.rsplit(".", 1)[1] for m in mods) + ".lean"
+    arms = "\n".join(f'  | some "{m.rsplit(".", 1)[1].lower()}" => CBV.{m.rsplit(".", 1)[1]}.handle op args' for m in mods)
+    text = (
+        "\n".join(f"import {m}" for m in mods)
+        + """
+
+def dispatch (op : String) (args : List String) : Option String :=
+  match (op.splitOn ".").head? with
+"""
+        + arms
+        + """
+  | _ => none
+
+def answer (line : String) : String :=
+  let toks := (line.trimAscii.toString.splitOn " ").filter (· ≠ "")
+  match toks with
+  | [] => "bad-op"
+  | op :: args => (dispatch op args).getD "bad-op"
+
+partial def loop (h : IO.FS.Stream) (out : IO.FS.Stream) : IO Unit := do
+  let line ← h.getLine
+  if line.isEmpty then return ()
+  out.putStrLn (answer line)
+  loop h out
+
+def main : IO Unit := do
+  let out ← IO.getStdout
+  loop (← IO.getStdin) out
+"""
+    )
+    f = adir / name
+    if not f.exists() or f.read_text() != text:
+        f.write_text(text)
+    return f
+
+
 def run_driver(lines: Sequence[str], timeout: int = 1800) -> List[str]:
-    """Pipes request lines to the Lean model (interpreted Driver.lean), returns the answer lines."""
+    """Pipes request lines to the Lean model (an interpreted driver over the model modules the requests address),
+    returns the answer lines."""
     if not lines:
         return []
+    mods = model_modules_for(lines)
+    if not mods:
+        raise DriverError("no request addresses a model module")
+    ok, out = build(mods)
+    if not ok:
+        errs = re.findall(r"^error: (.*)$", out, re.M)[:6]
+        raise DriverError(f"lake build {' '.join(mods)} failed: " + " | ".join(errs or [out[-800:]]))
+    driver = write_driver(mods)
     data = "\n".join(lines) + "\n"
     p = subprocess.run(
-        ["lake", "env", "lean", "--run", "Driver.lean"],
+        ["lake", "env", "lean", "--run", str(driver)],
         cwd=LEAN,
         input=data,
         capture_output=True,
@@ -480,7 +566,14 @@ def _run(check: Check, tier: str, seed: int, replay: Optional[str], t0: float) -
         red.append("translator cbv/gen_tables.py could not read the source tables: " + info[-600:])
 
     modules = [check.props_module, *check.extra_modules]
-    built, out = build([*modules, "CBV.Model.All"])
+    own_model = f"CBV.Model.{pid}"
+    targets = [*modules] + ([own_model] if (LEAN / "CBV" / "Model" / f"{pid}.lean").exists() else [])
+    # a table module whose translator failed concerns this property only if its Lean modules import those tables
+    used = {m.rsplit(".", 1)[1] for m in import_closure(targets) if m.startswith("CBV.Gen.")}
+    for stem, tb in sorted(TABLE_FAILURES.items()):
+        if stem in used and stem != "Tables":
+            red.append(f"translator of CBV/Gen/{stem}.lean could not translate the current source: " + tb[-600:])
+    built, out = build(targets)
     detail["build_ok"] = built
     if not built:
         errs = re.findall(r"^error: (.*)$", out, re.M)[:8]
